@@ -3,6 +3,12 @@ BASE_NOTE = ("Trusted: rustc nightly 1.97 front end (type check, MIR constructio
              "clauses only; the behavioural statement over all inputs is not proved. Host configuration only (no wasm32 cfg arms).")
 
 CLAIMS = {
+ "C03": ("who-may-call over the resolved workspace call graph + MIR dominance / no-path / may-bind-between queries in evaluate_ast + provenance of environment arguments + name-table agreement (evaluator, assignment guard, grammar)",
+         "Exhaustive static decision of: Environment::insert is called only from the evaluator's assignment handling and from driver set-up into a fresh root environment before any evaluation, and the bindings map has no other writer (R1); "
+         "the top-level insert is dominated by not-a-built-in, not-yet-bound on the same environment and key with no call that may bind in between, and the Ok edge of the right-hand side, with the Err edge unable to reach it (R2/R2b); "
+         "do-block statements and function bodies are evaluated in environments created by Environment::extend / extend_with in the same arm (R3); every name resolved before the environment lookup, `inputs` and every reserved word is refused or unparsable (R4). "
+         "Histories are covered only inductively (every insert guarded), not by exploring sequences.",
+         BASE_NOTE, "DESIGN.md §4 C03"),
  "C06": ("resolved cargo feature check (serde_json float_roundtrip) + match-table bijection over the four value<->JSON conversion functions + HIR guard analysis of the input-object loop",
          "Exhaustive static decision of: JSON text is parsed by serde_json built with float_roundtrip and without arbitrary_precision (R1); from_json/to_json/from_value/to_value preserve the value kind arm by arm, compose to the identity on the six data kinds, "
          "recurse with the same function and are lossy only on the number arm (R2); records are IndexMap end to end and the outputs map handed to serde_json is an IndexMap (R3); every member of an input object is inserted, conditional only on its own conversion (R4); "
